@@ -338,6 +338,24 @@ inline EncodeResult encode_case(const CaseSpec &cs, const draco::PointCloud &pc)
   return res;
 }
 
+// Signature of known finding F19: sequential mesh stream with compressed connectivity (method byte 0) in which
+// fewer than 3 bytes per face remain after the face / point counts - the decoder's plausibility check
+// `num_faces > remaining_size / 3` rejects it.
+inline bool f19_signature(const EncodeResult &er, const CaseSpec &cs) {
+  if (er.geometry_type != 1 || er.method != 0 || er.bytes.size() < 12) return false;
+  const uint16_t flags = static_cast<uint8_t>(er.bytes[9]) | (static_cast<uint8_t>(er.bytes[10]) << 8);
+  if (flags & 0x8000) return false;
+  size_t off = 11;
+  for (int k = 0; k < 2; ++k) {  // two varints: faces, points
+    while (off < er.bytes.size() && (static_cast<uint8_t>(er.bytes[off]) & 0x80)) ++off;
+    ++off;
+  }
+  if (off >= er.bytes.size()) return false;
+  const size_t remaining = er.bytes.size() - off;
+  return er.bytes[off] == 0 && cs.g.nfaces() > remaining / 3;
+}
+
+
 // ---------------------------------------------------------------------------------------------
 // Expected decoded values.
 enum LossKind { kLossless = 0, kQuantized = 1, kOctahedral = 2 };
@@ -745,6 +763,7 @@ struct GenCfg {
   bool seam_focus = false;    // C09: weight seams / non-manifold / degenerate / isolated
   int max_extra_atts = 4;
   bool allow_large = true;
+  bool allow_lattice = true;  // 3 % large regular lattice patches (very compressible streams)
 };
 
 struct Topo {
@@ -1085,7 +1104,69 @@ inline bool gen_explicit_box(const AttSpec &a, AttOpt *o) {
   return true;
 }
 
+// A large regular lattice patch with smooth values: the most compressible input there is (connectivity and
+// corrections cost almost nothing per face), >= 1000 faces so that the valence Edgebreaker coder is selected at low
+// speeds. Reaches the decoders' plausibility guards that relate counts to the remaining stream size.
+inline CaseSpec gen_lattice_case(const GenCfg &cfg, std::vector<std::string> *classes) {
+  CaseSpec cs;
+  GeomSpec &g = cs.g;
+  OptSpec &o = cs.o;
+  g.is_mesh = 1;
+  const int n = R(23, cfg.thorough ? 120 : 40), m = R(23, cfg.thorough ? 120 : 40);
+  const int flat = P(60);
+  AttSpec pos;
+  pos.type = GeometryAttribute::POSITION;
+  pos.dtype = draco::DT_FLOAT32;
+  pos.ncomp = 3;
+  pos.identity = 1;
+  pos.unique_id = 0;
+  pos.nvalues = static_cast<uint32_t>((n + 1) * (m + 1));
+  for (int i = 0; i <= n; ++i)
+    for (int j = 0; j <= m; ++j) {
+      put_scalar(pos.data, draco::DT_FLOAT32, 0, i);
+      put_scalar(pos.data, draco::DT_FLOAT32, 0, j);
+      put_scalar(pos.data, draco::DT_FLOAT32, 0, flat ? 0 : (i + j) % 3);
+    }
+  g.npoints = pos.nvalues;
+  for (int i = 0; i < n; ++i)
+    for (int j = 0; j < m; ++j) {
+      const uint32_t a = i * (m + 1) + j, b = (i + 1) * (m + 1) + j, c = (i + 1) * (m + 1) + j + 1, d = i * (m + 1) + j + 1;
+      g.faces.insert(g.faces.end(), {a, b, c, a, c, d});
+    }
+  g.atts.push_back(pos);
+  o.per_type.resize(5);
+  AttOpt q;
+  q.qbits = R(6, 12);
+  if (P(40)) {
+    AttSpec tc;
+    tc.type = GeometryAttribute::TEX_COORD;
+    tc.dtype = draco::DT_FLOAT32;
+    tc.ncomp = 2;
+    tc.identity = 1;
+    tc.unique_id = 1;
+    tc.nvalues = pos.nvalues;
+    for (int i = 0; i <= n; ++i)
+      for (int j = 0; j <= m; ++j) {
+        put_scalar(tc.data, draco::DT_FLOAT32, 0, i / static_cast<double>(n));
+        put_scalar(tc.data, draco::DT_FLOAT32, 0, j / static_cast<double>(m));
+      }
+    g.atts.push_back(tc);
+    o.per_type[GeometryAttribute::TEX_COORD] = q;
+  }
+  o.per_type[GeometryAttribute::POSITION] = q;
+  o.per_att.assign(g.atts.size(), q);
+  o.api = P(50);
+  o.method = P(70) ? -1 : 1;
+  o.eb_method = W({60, 10, 30}) == 0 ? -1 : (P(30) ? 0 : 2);
+  o.enc_speed = o.dec_speed = P(80) ? R(0, 4) : R(5, 9);
+  o.track = P(50);
+  cs.skip_mask = static_cast<uint32_t>(R(0, 31));
+  classes->push_back("lattice_patch_1000plus_faces");
+  return cs;
+}
+
 inline CaseSpec gen_case(const GenCfg &cfg, std::vector<std::string> *classes) {
+  if (cfg.allow_lattice && P(3)) return gen_lattice_case(cfg, classes);
   CaseSpec cs;
   GeomSpec &g = cs.g;
   OptSpec &o = cs.o;
